@@ -1,28 +1,37 @@
 (* C07 - answers served from the product cache equal the answers in the database files.
 
-   Model: Model/Cache.v on top of Model/Db.v.  A world = database files + a modification time for
-   every product directory, version file and chain file + the cache files of every (cache
+   Model: Model/Cache.v on top of Model/Db.v.  A world = database files + the chain files of every
+   user's tag directory (user tags) + a modification time for every product directory, version file
+   and chain file, of the stacks and of the tag directories + the cache files of every (cache
    directory, stack, flavor).  [reachable tick vr w]: w is produced from empty stacks by any number
    of processes run one after the other -- each one the fromCache load of every stack followed by
-   any commands, dying or not before a database call or between a database call and the cache
-   update that follows it -- by any users (cache directories) and flavors, with cache files deleted
-   at any moment, inside or outside processes.  [repaired] = the code with the two fixes proposed
-   for this property (ProductFamily.removeVersion; order of the fall-back flavor set-up in
-   Eups.__init__); the pinned behaviours are kept as variants and refuted below.
+   any commands, user-tag commands included, dying or not before a database call or between a
+   database call and the cache update that follows it -- by any users (cache directories) and
+   flavors, with cache files deleted at any moment, inside or outside processes.  [repaired] = the
+   code with the fixes proposed for this property (ProductFamily.removeVersion; order of the
+   fall-back flavor set-up in Eups.__init__; and, for user tags: Eups.assignTag writes into the
+   user's tag directory, cacheIsUpToDate looks into it, Eups.declare reads the tags of the new
+   version back, the cache files of ups_db carry nobody's user tags, _loadUserTags passes over chain
+   files whose version is gone); the pinned behaviours are kept as variants and refuted below.
 
    [q_cache m q] is the answer of an Eups whose product stacks are m (noCache=False), [q_db w q]
    the answer read from the version and chain files (noCache=True); queries: is a version
    declared, its directory and table, does it carry a tag, the version a tag designates, per stack
-   and over the path.
+   and over the path.  [uq_cache m q] / [uq_db w u q]: the same for the user tags of user u (does
+   the version carry user tag t, the version t designates, per stack and over the path), read from
+   the chain files of the tag directory of u.
 
    Hypotheses that stay in the statements:
    - clock_strict tick: every record effect and every cache-file write gets a stamp strictly
      later than the previous ones (refuted without it: coherent_refuted_coarse_clock);
    - the query is about a flavor the loading instance consults (its own or a fall-back): an
-     Eups does not load, hence cannot answer for, other flavors (unconsulted_flavor_not_served). *)
+     Eups does not load, hence cannot answer for, other flavors (unconsulted_flavor_not_served);
+   - a user's data directory is not a stack's ups_db (u <> upsdb), and (in reachable) an
+     administrator's instance only loads; user-tag answers are stated for instances that are not
+     administrators (an administrator's instance holds no user tag, by design of the repair). *)
 From Eupsv Require Import Base.Base Model.Db Model.Cache.
 From Eupsv Require Import Proofs.DbLib Proofs.Db Proofs.DbInv Proofs.DbCor.
-From Eupsv Require Import Proofs.CacheLib Proofs.CacheWt Proofs.CacheRebuild Proofs.CacheEff Proofs.CacheInv
+From Eupsv Require Import Proofs.CacheLib Proofs.CacheWt Proofs.CacheRebuild Proofs.CacheEff Proofs.CacheU Proofs.CacheInv
   Proofs.CacheLoad Proofs.CacheProc Proofs.CacheCor.
 
 (* ---------------------------------------------------------------- the property *)
@@ -30,18 +39,33 @@ From Eupsv Require Import Proofs.CacheLib Proofs.CacheWt Proofs.CacheRebuild Pro
 (* whatever the history, whoever made it, a new process of any user and flavor answers every
    query through its cache as the database files do *)
 Theorem coherent : forall tick, clock_strict tick -> forall w, reachable tick repaired w ->
-  forall loc fl q, In (q_flavor q) (fallbacks fl) ->
-  q_cache (snd (load tick repaired w loc fl)) q = q_db w q.
-Proof. intros tick CS w R loc fl q Hq. apply coherent_load; assumption. Qed.
+  forall u loc fl q, u <> upsdb -> loc = u \/ loc = upsdb -> In (q_flavor q) (fallbacks fl) ->
+  q_cache (snd (load tick repaired w loc u fl)) q = q_db w q.
+Proof. intros tick CS w R u loc fl q Hu Hl Hq. apply coherent_load; assumption. Qed.
 Print Assumptions coherent.
 
-(* the invariant behind it: in every reachable world every cache file, product by product,
-   either agrees with the files, or is older than a record of the product, or lists a product
-   that has no version file any more *)
+(* the same for user tags: whatever the history -- assignments, moves and removals of user tags by any
+   user, undeclarations of tagged versions by the same or another user and their redeclaration, deaths
+   between the write in the tag directory and the cache update, deleted cache files -- a new process of
+   user u answers every query about the user tags of u through its cache as the chain files of the tag
+   directory of u (and the version files) do *)
+Theorem user_tags_coherent : forall tick, clock_strict tick -> forall w, reachable tick repaired w ->
+  forall u fl q, u <> upsdb -> In (uq_flavor q) (fallbacks fl) ->
+  uq_cache (snd (load tick repaired w u u fl)) q = uq_db w u q.
+Proof. intros tick CS w R u fl q Hu Hq. apply ucoherent_load; assumption. Qed.
+Print Assumptions user_tags_coherent.
+
+(* the invariant behind both: in every reachable world every cache file, product by product,
+   either agrees with the files -- the stack's records, and for the user tags the tag directory of
+   the owner of the cache directory (nobody's for ups_db) --, or is older than a record of the
+   product or than the owner's tag directory for the product, or lists a product that has no
+   version file any more *)
 Theorem cache_files_stale_or_right : forall tick, clock_strict tick -> forall w, reachable tick repaired w ->
   forall loc s f p, pk_get w loc s f = Some p -> forall n,
-    agree_n (pk_data p) (w_db w) s f n
-    \/ (In n (db_names (w_db w) s) /\ newer_n (w_db w) (w_stamps w) s n (pk_stamp p) = true)
+    (agree_n (pk_data p) (w_db w) s f n /\ uagree_n (pk_data p) (w_db w) (w_uc w) (owner loc) s f n)
+    \/ (In n (db_names (w_db w) s) /\
+        (newer_n (w_db w) (w_stamps w) s n (pk_stamp p) = true
+         \/ (loc <> upsdb /\ pk_stamp p < stamp_of (w_stamps w) (RUDir loc s n))))
     \/ (~ In n (db_names (w_db w) s) /\ alookup n (pk_data p) <> None).
 Proof.
   intros tick CS w R loc s f p H n. destruct (reachable_inv tick w CS R) as [I _].
@@ -49,32 +73,40 @@ Proof.
 Qed.
 Print Assumptions cache_files_stale_or_right.
 
-(* a cache that is missing or older than the database is not believed ... *)
+(* a cache that is missing, or older than the database, or (in a user's directory) older than his
+   tag directory, is not believed ... *)
 Theorem missing_or_older_is_not_believed : forall w loc s nf f, In f nf ->
-  (pk_get w loc s f = None \/ exists p, pk_get w loc s f = Some p /\ newer_than w s (pk_stamp p) = true) ->
+  (pk_get w loc s f = None \/
+   (exists p, pk_get w loc s f = Some p /\ newer_than w s (pk_stamp p) = true) \/
+   (loc <> upsdb /\ exists p, pk_get w loc s f = Some p /\ unewer_than w loc s (pk_stamp p) = true)) ->
   believed w loc s nf = false.
 Proof.
-  intros w loc s nf f Hf [H|[p [H1 H2]]]; apply (not_up_to_date_not_believed w loc s nf f Hf).
+  intros w loc s nf f Hf [H|[[p [H1 H2]]|[N [p [H1 H2]]]]]; apply (not_up_to_date_not_believed w loc s nf f Hf).
   - apply absent_not_up_to_date. exact H.
   - eapply older_not_up_to_date; eassumption.
+  - eapply uolder_not_up_to_date; eassumption.
 Qed.
 Print Assumptions missing_or_older_is_not_believed.
 
 (* ... and a cache that is not believed (in the user's directory nor in ups_db) is rebuilt: the
-   stack is loaded with what the files say, for every flavor, and every needed cache file is
-   rewritten with a fresh stamp *)
+   stack is loaded with what the files say (the user tags: what the tag directory of the loading
+   user says), for every flavor, and every needed cache file is rewritten with a fresh stamp *)
 Theorem stale_is_rebuilt : forall tick, clock_strict tick -> forall w, reachable tick repaired w ->
   forall s loc nf, believed w loc s nf = false -> believed w upsdb s nf = false ->
-  let '(w', ps) := from_cache tick w s loc nf in
-  (forall f, In f (db_flavors (w_db w) s) -> alookup f (ps_lookup ps) = Some (rebuild_fdata (w_db w) s f)) /\
+  let '(w', ps) := from_cache tick false w s loc (owner loc) nf in
+  (forall f, In f (db_flavors (w_db w) s) ->
+     alookup f (ps_lookup ps) = Some (rebuild_fdata (w_db w) (w_uc w) (owner loc) s f)) /\
   (forall f, In f nf -> exists p, pk_get w' loc s f = Some p /\ w_clock w < pk_stamp p) /\
-  (forall f fd, alookup f (ps_lookup ps) = Some fd -> agree fd (w_db w) s f) /\
-  w_db w' = w_db w.
+  (forall f fd, alookup f (ps_lookup ps) = Some fd ->
+     agree fd (w_db w) s f /\ uagree fd (w_db w) (w_uc w) (owner loc) s f) /\
+  w_db w' = w_db w /\ w_uc w' = w_uc w.
 Proof.
   intros tick CS w R s loc nf B1 B2. destruct (reachable_inv tick w CS R) as [I _].
-  pose proof (stale_rebuilt tick w s loc nf CS I B1 B2) as H.
-  destruct (from_cache tick w s loc nf) as [w' ps]. destruct H as [H1 [H2 [[H3 _] H4]]].
-  split; [exact H1|]. split; [exact H2|]. split; [|exact H4]. rewrite <- H4. exact H3.
+  pose proof (stale_rebuilt tick w s loc (owner loc) nf CS I eq_refl B1 B2) as H.
+  destruct (from_cache tick false w s loc (owner loc) nf) as [w' ps]. destruct H as [H1 [H2 [[H3 [H3u _]] [H4 H5]]]].
+  split; [exact H1|]. split; [exact H2|]. split; [|split; [exact H4|exact H5]].
+  intros f fd E. rewrite <- H4, <- H5. split; [exact (H3 f fd E)|].
+  intro n. apply (ugood_uagree_n fd (w_db w') (w_uc w') (owner loc) s f n (H3 f fd E n)). apply (H3u f fd E).
 Qed.
 Print Assumptions stale_is_rebuilt.
 
@@ -82,37 +114,79 @@ Print Assumptions stale_is_rebuilt.
    answered coherently by every later process *)
 Theorem crash_between_db_and_cache_detected : forall tick, clock_strict tick ->
   forall w, reachable tick repaired w ->
-  forall p i g, p_crash p = Some (i, g, true) ->
-  forall loc fl q, In (q_flavor q) (fallbacks fl) ->
-  q_cache (snd (load tick repaired (run_proc tick repaired w p) loc fl)) q = q_db (run_proc tick repaired w p) q.
+  forall p i g, p_user p <> upsdb -> (p_admin p = true -> p_ops p = []) -> p_crash p = Some (i, g, true) ->
+  forall u loc fl q, u <> upsdb -> loc = u \/ loc = upsdb -> In (q_flavor q) (fallbacks fl) ->
+  q_cache (snd (load tick repaired (run_proc tick repaired w p) loc u fl)) q = q_db (run_proc tick repaired w p) q.
 Proof.
-  intros tick CS w R p i g _ loc fl q Hq. apply coherent_load; [exact CS| |exact Hq]. apply R_proc. exact R.
+  intros tick CS w R p i g Hp Ha _ u loc fl q Hu Hl Hq. apply coherent_load; try assumption. apply R_proc; assumption.
 Qed.
 Print Assumptions crash_between_db_and_cache_detected.
+
+(* the same when the command killed is a user-tag command (the write in the tag directory is done, the
+   cache update is not), for the user tags of any user *)
+Theorem user_tag_crash_detected : forall tick, clock_strict tick ->
+  forall w, reachable tick repaired w ->
+  forall p i g, p_user p <> upsdb -> (p_admin p = true -> p_ops p = []) -> p_crash p = Some (i, g, true) ->
+  forall u fl q, u <> upsdb -> In (uq_flavor q) (fallbacks fl) ->
+  uq_cache (snd (load tick repaired (run_proc tick repaired w p) u u fl)) q = uq_db (run_proc tick repaired w p) u q.
+Proof.
+  intros tick CS w R p i g Hp Ha _ u fl q Hu Hq. apply ucoherent_load; try assumption. apply R_proc; assumption.
+Qed.
+Print Assumptions user_tag_crash_detected.
 
 (* the mechanism: a database call that changes anything leaves the product directory newer than
    every cache file of the stack, whoever wrote it; none of them is up to date afterwards *)
 Theorem db_update_outdates_cache_files : forall tick, clock_strict tick -> forall w, reachable tick repaired w ->
   forall x l f p, compile (w_db w) x <> [] -> pk_get w l (act_stack x) f = Some p ->
   In (act_name x) (db_names (w_db (do_act tick w x)) (act_stack x)) ->
-  up_to_date (do_act tick w x) l (act_stack x) f = false.
+  up_to_date false (do_act tick w x) l (act_stack x) f = false.
 Proof.
   intros tick CS w R x l f p Ne Hp Hn. destruct (reachable_inv tick w CS R) as [I _].
   eapply act_outdates; eassumption.
 Qed.
 Print Assumptions db_update_outdates_cache_files.
 
+(* the mechanism for user tags: a write in the tag directory of user u leaves the product's directory
+   there newer than every cache file of u for the stack; none of them is up to date afterwards *)
+Theorem user_tag_update_outdates_own_cache_files : forall tick, clock_strict tick -> forall w, reachable tick repaired w ->
+  forall u s n t f v f0 p, u <> upsdb -> pk_get w u s f0 = Some p -> In n (db_names (w_db w) s) ->
+  up_to_date false (do_uset tick w u s n t f v) u s f0 = false.
+Proof.
+  intros tick CS w R u s n t f v f0 p Hu Hp Hn. destruct (reachable_inv tick w CS R) as [I _].
+  eapply uset_outdates; eassumption.
+Qed.
+Print Assumptions user_tag_update_outdates_own_cache_files.
+
 (* the write-through of one database call, on the repaired removeVersion: data that agree with
    the files before the call agree with the files after it *)
-Theorem write_through_follows_database : forall ps d s x,
+Theorem write_through_follows_database : forall uts ps d s x,
   lookup_agree ps d s -> no_dangling (view d) -> act_ok (view d) x -> act_root x = s ->
   has_stack d s = true -> alookup (act_flavor x) (ps_lookup ps) <> None ->
-  exists ps' ch, wt_act false x ps = Ok (ps', ch) /\ lookup_agree ps' (apply (compile d x) d) s.
+  exists ps' ch, wt_act false uts x ps = Ok (ps', ch) /\ lookup_agree ps' (apply (compile d x) d) s.
 Proof.
-  intros ps d s x A ND OK R H F. destruct (wt_act_agree ps d s x A ND OK R H F) as [ps' [ch [E [A' _]]]].
+  intros uts ps d s x A ND OK R H F. destruct (wt_act_agree uts ps d s x A ND OK R H F) as [ps' [ch [E [A' _]]]].
   exists ps', ch. auto.
 Qed.
 Print Assumptions write_through_follows_database.
+
+(* the write-through for user tags, of a database call (a declaration reads the user's chain files that
+   name the version back; an undeclaration takes his tags off the version in the tag directory and in
+   the data) and of the two user-tag calls: user tags that agree with the tag directory before the
+   call agree with it after *)
+Theorem write_through_follows_tag_directory : forall tick w u ps,
+  (forall s x ps' ch, ps_ugood ps (w_uc w) (Some u) s -> lookup_agree ps (w_db w) s -> act_root x = s ->
+     alookup (act_flavor x) (ps_lookup ps) <> None ->
+     wt_act false (read_back false (do_act tick (do_uact tick w u x) x) u) x ps = Ok (ps', ch) ->
+     ps_ugood ps' (w_uc (do_act tick (do_uact tick w u x) x)) (Some u) s) /\
+  (forall x ps' ch, ps_ugood ps (w_uc w) (Some u) (uact_stack x) -> wt_uact x ps = Ok (ps', ch) ->
+     ps_ugood ps' (w_uc (do_udb tick false w u x)) (Some u) (uact_stack x)).
+Proof.
+  intros tick w u ps. split.
+  - intros s x ps' ch G A R F E. apply (wt_act_ugood tick w u _ ps s x ps' ch) with (6 := E); auto.
+    intros s0 n v f. unfold read_back. rewrite do_act_uc. reflexivity.
+  - intros x ps' ch G E. eapply wt_uact_ugood; eassumption.
+Qed.
+Print Assumptions write_through_follows_tag_directory.
 
 (* ---------------------------------------------------------------- witnesses *)
 
@@ -124,16 +198,29 @@ Definition s2 : str := lit "s2".
 Definition u1 : str := lit "u1".
 Definition u2 : str := lit "u2".
 Definition a : str := lit "a".
+Definition mine : str := lit "mine".
+Definition exp : str := lit "exp".
 Definition o (f : str) : opts := mkOpts f None false false.
 Definition decl (f : str) (v : string) : pop := POp (Declare (o f) a (lit v) (Some (lit "/prod/a")) None None).
 Definition undecl (f : str) (v : string) : pop := POp (Undeclare (o f) a (Some (lit v))).
+Definition utag (f t : str) (v : string) : pop := PUAssign (o f) t a (lit v).
+Definition uuntag (f t : str) : pop := PUUnassign (mkOpts f (Some (lit "s1")) false false) t a None.
 Arguments decl f v%string.
 Arguments undecl f v%string.
-Definition P (loc f : str) (ops : list pop) : proc := mkProc loc f ops None.
+Arguments utag f t v%string.
+Definition P (u f : str) (ops : list pop) : proc := mkProc u false f ops None.
+Definition Adm (u f : str) : proc := mkProc u true f [] None.
 Definition w0 : world := init_world [s1; s2].
 
 Lemma nodup_path : NoDup [s1; s2].
 Proof. constructor; [intros [H|[]]; discriminate|]. constructor; [intros []|constructor]. Qed.
+
+Ltac reach :=
+  repeat (lazymatch goal with
+          | |- reachable _ _ (delete_cache _ _ _ _) => apply R_del
+          | |- reachable _ _ (run_proc _ _ _ _) => apply R_proc; [discriminate | (intro; discriminate) || reflexivity |]
+          end);
+  apply R_init; exact nodup_path.
 
 (* the hypotheses are inhabited: the real clock of the model, and a world with two stacks, two
    users, two flavors, a tag, a death between database and cache, and a deleted cache file *)
@@ -146,13 +233,13 @@ Definition w_example : world :=
       (run_proc S repaired
          (run_proc S repaired
             (run_proc S repaired w0 (P u1 L [decl L "1.0"; decl L "2.0"]))
-            (mkProc u2 g [decl g "3.0"; undecl g "3.0"] (Some (1, 0, true))))
+            (mkProc u2 false g [decl g "3.0"; undecl g "3.0"] (Some (1, 0, true))))
          (P u2 L [undecl L "1.0"]))
       (P u2 L []))
     u1 s1 L.
 
 Example w_example_reachable : reachable S repaired w_example.
-Proof. unfold w_example. apply R_del. do 4 apply R_proc. apply R_init. exact nodup_path. Qed.
+Proof. unfold w_example. reach. Qed.
 
 (* the cache files of user u2 are believed, those of user u1 are not (one was deleted); the database holds
    a 2.0 and lost a 1.0 (undeclared) and a 3.0 (undeclared by a command that died before its
@@ -164,10 +251,50 @@ Example w_example_nontrivial :
 Proof. vm_compute. repeat split. Qed.
 
 Example w_example_answers :
-  q_cache (snd (load S repaired w_example u2 L)) (QFind a (lit "2.0") L) =
+  q_cache (snd (load S repaired w_example u2 u2 L)) (QFind a (lit "2.0") L) =
     AStackRec (Some (s1, (lit "/prod/a", lit "/prod/a/ups/a.table"))) /\
-  q_cache (snd (load S repaired w_example u2 L)) (QFind a (lit "3.0") g) = AStackRec None /\
-  q_cache (snd (load S repaired w_example u1 L)) (QDeclared s1 a (lit "1.0") L) = ABool false.
+  q_cache (snd (load S repaired w_example u2 u2 L)) (QFind a (lit "3.0") g) = AStackRec None /\
+  q_cache (snd (load S repaired w_example u1 u1 L)) (QDeclared s1 a (lit "1.0") L) = ABool false.
+Proof. vm_compute. repeat split. Qed.
+
+(* a world with user tags: u1 declares 1.0 and 2.0 and tags 1.0 mine; u2 tags 2.0 mine (his own tag of
+   that name); a command of u1 dies between writing exp -> 2.0 into his tag directory and the cache
+   update; u2 undeclares 1.0 (the chain file mine of u1 stays, naming a version that is gone); an
+   administrator rebuilds the caches of ups_db; a cache file of u2 is deleted *)
+Definition w_uexample : world :=
+  delete_cache
+    (run_proc S repaired
+      (run_proc S repaired
+         (run_proc S repaired
+            (run_proc S repaired
+               (run_proc S repaired w0 (P u1 g [decl g "1.0"; decl g "2.0"; utag g mine "1.0"]))
+               (P u2 g [utag g mine "2.0"]))
+            (mkProc u1 false g [utag g exp "2.0"] (Some (0, 0, true))))
+         (P u2 g [undecl g "1.0"]))
+      (Adm u1 g))
+    u2 s1 g.
+
+Example w_uexample_reachable : reachable S repaired w_uexample.
+Proof. unfold w_uexample. reach. Qed.
+
+Example w_uexample_nontrivial :
+  (* the tag directory of u1 still has the chain file mine -> 1.0; no reader sees it, 1.0 is gone *)
+  uc_tag (w_uc w_uexample) u1 s1 a mine g = Some (lit "1.0") /\
+  uq_db w_uexample u1 (UQTagged s1 a mine g) = AVer None /\
+  (* the assignment of the command that died is in the files *)
+  uq_db w_uexample u1 (UQTagged s1 a exp g) = AVer (Some (lit "2.0")) /\
+  (* the same tag name of the other user is another tag *)
+  uq_db w_uexample u2 (UQFindTagged a mine g) = AStackVer (Some (s1, lit "2.0")) /\
+  (* the cache files of u1 are older than his tag directory, those of u2 are gone, those of ups_db are fresh *)
+  believed w_uexample u1 s1 (fallbacks g) = false /\ believed w_uexample u2 s1 (fallbacks g) = false /\
+  believed w_uexample upsdb s1 (fallbacks g) = true.
+Proof. vm_compute. repeat split. Qed.
+
+Example w_uexample_answers :
+  uq_cache (snd (load S repaired w_uexample u1 u1 g)) (UQTagged s1 a exp g) = AVer (Some (lit "2.0")) /\
+  uq_cache (snd (load S repaired w_uexample u1 u1 g)) (UQTagged s1 a mine g) = AVer None /\
+  uq_cache (snd (load S repaired w_uexample u2 u2 g)) (UQFindTagged a mine g) = AStackVer (Some (s1, lit "2.0")) /\
+  uq_cache (snd (load S repaired w_uexample u2 u2 g)) (UQHasTag s1 a (lit "2.0") exp g) = ABool false.
 Proof. vm_compute. repeat split. Qed.
 
 (* D1, the pinned ProductFamily.removeVersion: it looks for the tags of the version among the
@@ -175,43 +302,119 @@ Proof. vm_compute. repeat split. Qed.
    declare a 1.0 (becomes current) . declare a 2.0 . undeclare a 1.0 . declare a 1.0, four
    processes under the generic flavor: the cache answers that current is 1.0, the files have no
    current.chain. *)
-Definition pinned_remove : variant := mkVar true false.
+Definition pinned_remove : variant := mkVar true false false false false false.
 Definition w_d1 (vr : variant) : world :=
   run_proc S vr (run_proc S vr (run_proc S vr (run_proc S vr w0
     (P u1 g [decl g "1.0"])) (P u1 g [decl g "2.0"])) (P u1 g [undecl g "1.0"])) (P u1 g [decl g "1.0"]).
 
 Example coherent_refuted_pinned :
   reachable S pinned_remove (w_d1 pinned_remove) /\
-  q_cache (snd (load S pinned_remove (w_d1 pinned_remove) u1 g)) (QFindTagged a current g)
+  q_cache (snd (load S pinned_remove (w_d1 pinned_remove) u1 u1 g)) (QFindTagged a current g)
     = AStackVer (Some (s1, lit "1.0")) /\
   q_db (w_d1 pinned_remove) (QFindTagged a current g) = AStackVer None.
 Proof.
   split; [|vm_compute; split; reflexivity].
-  unfold w_d1. do 4 apply R_proc. apply R_init. exact nodup_path.
+  unfold w_d1. reach.
 Qed.
 
 Example d1_repaired :
-  q_cache (snd (load S repaired (w_d1 repaired) u1 g)) (QFindTagged a current g) = AStackVer None.
+  q_cache (snd (load S repaired (w_d1 repaired) u1 u1 g)) (QFindTagged a current g) = AStackVer None.
 Proof. vm_compute. reflexivity. Qed.
 
 (* the pinned Eups.__init__ computes the needed flavors before the fall-back list is installed:
    the first Eups of a process (every command-line invocation) loads the invoking flavor only and
    answers that a product declared for the fall-back flavor generic is not there *)
-Definition pinned_flavors : variant := mkVar false true.
+Definition pinned_flavors : variant := mkVar false true false false false false.
 Definition w_fl (vr : variant) : world :=
   run_proc S vr (run_proc S vr w0 (P u1 g [decl g "1.0"])) (P u1 L [decl L "2.0"]).
 
 Example coherent_refuted_pinned_flavors :
   reachable S pinned_flavors (w_fl pinned_flavors) /\ In g (fallbacks L) /\
-  q_cache (snd (load S pinned_flavors (w_fl pinned_flavors) u1 L)) (QDeclared s1 a (lit "1.0") g) = ABool false /\
+  q_cache (snd (load S pinned_flavors (w_fl pinned_flavors) u1 u1 L)) (QDeclared s1 a (lit "1.0") g) = ABool false /\
   q_db (w_fl pinned_flavors) (QDeclared s1 a (lit "1.0") g) = ABool true.
 Proof.
-  split; [unfold w_fl; do 2 apply R_proc; apply R_init; exact nodup_path|].
+  split; [unfold w_fl; reach|].
   split; [right; left; reflexivity|]. vm_compute. split; reflexivity.
 Qed.
 
 Example flavors_repaired :
-  q_cache (snd (load S repaired (w_fl repaired) u1 L)) (QDeclared s1 a (lit "1.0") g) = ABool true.
+  q_cache (snd (load S repaired (w_fl repaired) u1 u1 L)) (QDeclared s1 a (lit "1.0") g) = ABool true.
+Proof. vm_compute. reflexivity. Qed.
+
+(* the pinned Eups.assignTag writes the chain file of a user tag among the chain files of the stack, where
+   Eups.unassignTag (which looks into the tag directory) never removes it: assign mine to 1.0, unassign
+   it (in stack s1); the files say that mine designates 1.0 (a chain file mine.chain in ups_db), the cache says that
+   nothing does, neither as a user tag nor as a global one *)
+Definition pinned_uloc : variant := mkVar false false true false false false.
+Definition w_uloc (vr : variant) : world :=
+  run_proc S vr (run_proc S vr (run_proc S vr w0 (P u1 g [decl g "1.0"])) (P u1 g [utag g mine "1.0"]))
+    (P u1 g [uuntag g mine]).
+
+Example user_tags_refuted_pinned_location :
+  reachable S pinned_uloc (w_uloc pinned_uloc) /\
+  q_db (w_uloc pinned_uloc) (QTagged s1 a mine g) = AVer (Some (lit "1.0")) /\
+  q_cache (snd (load S pinned_uloc (w_uloc pinned_uloc) u1 u1 g)) (QTagged s1 a mine g) = AVer None /\
+  uq_cache (snd (load S pinned_uloc (w_uloc pinned_uloc) u1 u1 g)) (UQTagged s1 a mine g) = AVer None.
+Proof. split; [unfold w_uloc; reach|]. vm_compute. repeat split. Qed.
+
+Example location_repaired :
+  q_db (w_uloc repaired) (QTagged s1 a mine g) = AVer None /\
+  uq_db (w_uloc repaired) u1 (UQTagged s1 a mine g) = AVer None /\
+  uq_cache (snd (load S repaired (w_uloc repaired) u1 u1 g)) (UQTagged s1 a mine g) = AVer None.
+Proof. vm_compute. repeat split. Qed.
+
+(* the pinned cacheIsUpToDate never finds the tag directory newer (it lists Database(cacheDir), which has
+   no product because a tag directory has no version file): a command killed between the write in the
+   tag directory and the cache update leaves a cache that is believed and lacks the tag *)
+Definition pinned_ustale : variant := mkVar false false false true false false.
+Definition w_ustale (vr : variant) : world :=
+  run_proc S vr (run_proc S vr w0 (P u1 g [decl g "1.0"])) (mkProc u1 false g [utag g mine "1.0"] (Some (0, 0, true))).
+
+Example user_tags_refuted_pinned_staleness :
+  reachable S pinned_ustale (w_ustale pinned_ustale) /\
+  uq_cache (snd (load S pinned_ustale (w_ustale pinned_ustale) u1 u1 g)) (UQTagged s1 a mine g) = AVer None /\
+  uq_db (w_ustale pinned_ustale) u1 (UQTagged s1 a mine g) = AVer (Some (lit "1.0")).
+Proof. split; [unfold w_ustale; reach|]. vm_compute. repeat split. Qed.
+
+Example staleness_repaired :
+  believed (w_ustale repaired) u1 s1 (fallbacks g) = false /\
+  uq_cache (snd (load S repaired (w_ustale repaired) u1 u1 g)) (UQTagged s1 a mine g) = AVer (Some (lit "1.0")).
+Proof. vm_compute. repeat split. Qed.
+
+(* the pinned Eups.declare registers the new version in the cache with the tag of the command line only:
+   u2 tags 1.0 mine, u1 undeclares 1.0 (the chain file of u2 stays), u2 declares 1.0 again; the files
+   say that mine of u2 designates 1.0, his cache (fresh: he wrote it last) says that nothing does *)
+Definition pinned_noread : variant := mkVar false false false false true false.
+Definition w_noread (vr : variant) : world :=
+  run_proc S vr (run_proc S vr (run_proc S vr (run_proc S vr w0 (P u1 g [decl g "1.0"; decl g "2.0"]))
+    (P u2 g [utag g mine "1.0"])) (P u1 g [undecl g "1.0"])) (P u2 g [decl g "1.0"]).
+
+Example user_tags_refuted_pinned_read_back :
+  reachable S pinned_noread (w_noread pinned_noread) /\
+  uq_cache (snd (load S pinned_noread (w_noread pinned_noread) u2 u2 g)) (UQTagged s1 a mine g) = AVer None /\
+  uq_db (w_noread pinned_noread) u2 (UQTagged s1 a mine g) = AVer (Some (lit "1.0")).
+Proof. split; [unfold w_noread; reach|]. vm_compute. repeat split. Qed.
+
+Example read_back_repaired :
+  uq_cache (snd (load S repaired (w_noread repaired) u2 u2 g)) (UQTagged s1 a mine g) = AVer (Some (lit "1.0")).
+Proof. vm_compute. reflexivity. Qed.
+
+(* the pinned administrator's rebuild (eups admin buildCache -A) reads his own tag directory and writes his
+   user tags into the cache files of ups_db, which every user without an up-to-date cache of his own loads:
+   u1 tags 1.0 mine and rebuilds as administrator; u2, who never tagged anything, is told that 1.0 carries
+   his user tag mine *)
+Definition pinned_shared : variant := mkVar false false false false false true.
+Definition w_shared (vr : variant) : world :=
+  run_proc S vr (run_proc S vr (run_proc S vr w0 (P u1 g [decl g "1.0"])) (P u1 g [utag g mine "1.0"])) (Adm u1 g).
+
+Example user_tags_refuted_pinned_shared_cache :
+  reachable S pinned_shared (w_shared pinned_shared) /\
+  uq_cache (snd (load S pinned_shared (w_shared pinned_shared) u2 u2 g)) (UQTagged s1 a mine g) = AVer (Some (lit "1.0")) /\
+  uq_db (w_shared pinned_shared) u2 (UQTagged s1 a mine g) = AVer None.
+Proof. split; [unfold w_shared; reach|]. vm_compute. repeat split. Qed.
+
+Example shared_cache_repaired :
+  uq_cache (snd (load S repaired (w_shared repaired) u2 u2 g)) (UQTagged s1 a mine g) = AVer None.
 Proof. vm_compute. reflexivity. Qed.
 
 (* clock_strict is needed: with a clock that stands still, a cache file written in the same tick
@@ -219,23 +422,23 @@ Proof. vm_compute. reflexivity. Qed.
 Definition stuck (c : nat) : nat := c.
 Definition w_coarse : world :=
   run_proc stuck repaired (run_proc stuck repaired w0 (P u1 g [decl g "1.0"]))
-    (mkProc u1 g [decl g "2.0"] (Some (0, 0, true))).
+    (mkProc u1 false g [decl g "2.0"] (Some (0, 0, true))).
 
 Example coherent_refuted_coarse_clock :
   reachable stuck repaired w_coarse /\
-  q_cache (snd (load stuck repaired w_coarse u1 g)) (QDeclared s1 a (lit "2.0") g) = ABool false /\
+  q_cache (snd (load stuck repaired w_coarse u1 u1 g)) (QDeclared s1 a (lit "2.0") g) = ABool false /\
   q_db w_coarse (QDeclared s1 a (lit "2.0") g) = ABool true.
 Proof.
-  split; [unfold w_coarse; do 2 apply R_proc; apply R_init; exact nodup_path|].
+  split; [unfold w_coarse; reach|].
   vm_compute. split; reflexivity.
 Qed.
 
 (* the same history under the strict clock: the killed command's update is seen *)
 Example crash_detected_example :
   let w := run_proc S repaired (run_proc S repaired w0 (P u1 g [decl g "1.0"]))
-             (mkProc u1 g [decl g "2.0"] (Some (0, 0, true))) in
+             (mkProc u1 false g [decl g "2.0"] (Some (0, 0, true))) in
   believed w u1 s1 (fallbacks g) = false /\
-  q_cache (snd (load S repaired w u1 g)) (QDeclared s1 a (lit "2.0") g) = ABool true.
+  q_cache (snd (load S repaired w u1 u1 g)) (QDeclared s1 a (lit "2.0") g) = ABool true.
 Proof. vm_compute. split; reflexivity. Qed.
 
 (* the flavor hypothesis is needed: an instance of flavor Linux64 that loaded from its cache
@@ -247,9 +450,9 @@ Definition w_foreign : world :=
 
 Example unconsulted_flavor_not_served :
   reachable S repaired w_foreign /\ ~ In D (fallbacks L) /\
-  q_cache (snd (load S repaired w_foreign u1 L)) (QDeclared s1 a (lit "1.0") D) = ABool false /\
+  q_cache (snd (load S repaired w_foreign u1 u1 L)) (QDeclared s1 a (lit "1.0") D) = ABool false /\
   q_db w_foreign (QDeclared s1 a (lit "1.0") D) = ABool true.
 Proof.
-  split; [unfold w_foreign; do 3 apply R_proc; apply R_init; exact nodup_path|].
+  split; [unfold w_foreign; reach|].
   split; [intros [H|[H|[]]]; discriminate|]. vm_compute. split; reflexivity.
 Qed.
